@@ -33,11 +33,11 @@ META = {
     "stubs": ["EbThreads.c -> harness/common/threads_model.h"], "explanation": ""}
 def mk(name, nobj, ncons, k, to=900):
     return Query(name=name, harness="C23/srm2.c", defines=["NOBJ=%d" % nobj, "NCONS=%d" % ncons, "K=%d" % k], gen=gen_split,
-                 unwind=k + 3, funcs=F, timeout=to, mem_gb=24,
+                 unwind=4, unwindset=["harness.0:%d" % (k + 1)], funcs=F, timeout=to, mem_gb=24,
                  bound="%d object(s), 1 producer, %d consumer(s), shutdown thread, %d scheduler steps (each step: any enabled half-operation of any thread), references 0..2, blocking and polling gets" % (nobj, ncons, k),
                  what="exclusive hand-out, no loss/duplication, posting order, no lost wake-up, release at last reference, shutdown wakes waiters, no write after publication")
 def queries(tier):
-    qs = [mk("srm_1obj_2cons_k7", 1, 2, 7), mk("srm_2obj_1cons_k7", 2, 1, 7)]
+    qs = [mk("srm_1obj_2cons_k6", 1, 2, 6, 1500), mk("srm_2obj_1cons_k6", 2, 1, 6, 1500)]
     if tier == "thorough":
-        qs += [mk("srm_2obj_2cons_k9", 2, 2, 9, 3000), mk("srm_1obj_2cons_k10", 1, 2, 10, 3000)]
+        qs += [mk("srm_1obj_2cons_k7", 1, 2, 7, 3000), mk("srm_2obj_1cons_k7", 2, 1, 7, 3000)]
     return qs
